@@ -58,15 +58,15 @@ def suites(prop: str, tier: str) -> t.List[Suite]:
             Suite('shared-gated-start', ['corpus', 'switch', 'oneof'], ['outcome', 'varies'], 0, ['async'], collab={'mode': 'gated', 'gate_kinds': ['node_start']},
                   symptoms=sym, plans='ok', max_nodes=8 if q else 9, require_tag='node-requested-from-two-scopes', limit=30000),
             Suite('composed', COMPOSED, ['outcome', 'varies'], 0, ['async'] if q else ['async', 'thread'], symptoms=sym),
-            Suite('d1', ['corpus', 'rec'] if q else GEN + ['corpus'], ['outcome', 'varies'], 1, ['async', 'thread'] if not q else ['thread'],
-                  symptoms=sym, max_nodes=4 if q else 6),
+            Suite('d1', ['corpus', 'rec'] if q else GEN + ['corpus'], ['outcome', 'varies'], 1, ['thread'],
+                  symptoms=sym, max_nodes=4 if q else 5),
         ] + ([] if q else [Suite('d2', ['corpus', 'plain', 'rec', 'oneof', 'switch'], ['outcome', 'varies'], 2, ['thread'], symptoms=sym, max_nodes=5, limit=20000)])
     if prop == 'C02':
         return [
             Suite('d0-async', GEN + ['corpus', 'overlap'], ['term'], 0, ['async'], symptoms=TERM),
             Suite('d0-thread', GEN + ['corpus'], ['term'], 0, ['thread'], symptoms=TERM),
             Suite('composed', COMPOSED, ['term'], 0, ['async'] if q else ['async', 'thread'], symptoms=TERM, plans='std' if q else 'pairs'),
-            Suite('d1', ['corpus'] + ([] if q else GEN), ['term'], 1, ['thread'], symptoms=TERM, max_nodes=5 if q else 6),
+            Suite('d1', ['corpus'] + ([] if q else GEN), ['term'], 1, ['thread'], symptoms=TERM, max_nodes=5 if q else 5),
             Suite('gated-collab', ['corpus', 'plain'] + ([] if q else ['oneof', 'switch', 'rec']), ['term'], 0, ['async'],
                   collab={'mode': 'gated', 'store': 'rec'}, symptoms=TERM, max_nodes=4 if q else 5),
         ] + [
@@ -89,7 +89,7 @@ def suites(prop: str, tier: str) -> t.List[Suite]:
             Suite('shared-gated-start', ['corpus', 'switch', 'oneof'], ['kwargs'], 0, ['async'], collab={'mode': 'gated', 'gate_kinds': ['node_start']},
                   symptoms=KW, plans='ok', max_nodes=8 if q else 9, require_tag='node-requested-from-two-scopes', limit=30000),
             Suite('composed', COMPOSED, ['kwargs'], 0, ['async'] if q else ['async', 'thread'], symptoms=KW),
-            Suite('d1', ['corpus', 'rec'] + ([] if q else ['plain', 'oneof', 'switch', 'mix']), ['kwargs'], 1, ['thread'], symptoms=KW, max_nodes=4 if q else 6),
+            Suite('d1', ['corpus', 'rec'] + ([] if q else ['plain', 'oneof', 'switch', 'mix']), ['kwargs'], 1, ['thread'], symptoms=KW, max_nodes=4 if q else 5),
         ] + ([] if q else [Suite('d2', ['corpus', 'rec', 'oneof', 'switch'], ['kwargs'], 2, ['thread'], symptoms=KW, max_nodes=5, limit=20000)])
     if prop == 'C04':
         sym = COUNT | {'wrong-kwarg-value', 'none-as-kwarg'}
@@ -101,7 +101,7 @@ def suites(prop: str, tier: str) -> t.List[Suite]:
                   symptoms=sym, plans='ok', max_nodes=8 if q else 9, require_tag='node-requested-from-two-scopes', limit=30000),
 
             Suite('yield-d1', ['corpus', 'switch', 'oneof'] + ([] if q else ['plain', 'rec', 'mix']), ['counts', 'kwargs'], 1, ['thread'],
-                  collab={'mode': 'yield'}, symptoms=sym, max_nodes=5 if q else 6, plans='ok'),
+                  collab={'mode': 'yield'}, symptoms=sym, max_nodes=5 if q else 5, plans='ok'),
         ] + ([] if q else [Suite('composed', COMPOSED, ['counts', 'kwargs'], 0, ['async'], collab={'mode': 'yield'}, symptoms=sym)]) + [
             Suite('gated', ['corpus'] + ([] if q else ['switch', 'oneof', 'plain']), ['counts', 'kwargs'], 0 if q else 1, ['async'],
                   collab={'mode': 'gated'}, symptoms=sym, plans='ok', max_nodes=6 if q else 5, limit=20000),
@@ -109,11 +109,12 @@ def suites(prop: str, tier: str) -> t.List[Suite]:
     if prop == 'C05':
         sym = ERR | VERDICT
         return [
-            Suite('d0-async', GEN + ['corpus'], ['outcome'], 0, ['async'], symptoms=sym, plans='pairs'),
+            Suite('d0-async', GEN + ['corpus'], ['outcome'], 0, ['async'], symptoms=sym, plans='pairs' if q else 'std'),
+        ] + ([] if q else [Suite('pairs', ['plain', 'oneof', 'switch', 'rec', 'mix', 'corpus'], ['outcome'], 0, ['async'], symptoms=sym, plans='pairs', max_nodes=5)]) + [
             Suite('d0-thread', GEN + ['corpus'], ['outcome'], 0, ['thread'], symptoms=sym, plans='std'),
             Suite('composed', COMPOSED, ['outcome'], 0, ['async'] if q else ['async', 'thread'], symptoms=sym, plans='std' if q else 'pairs'),
             Suite('d1', ['corpus', 'oneof'] + ([] if q else ['plain', 'switch', 'rec', 'mix']), ['outcome'], 1, ['thread'], symptoms=sym,
-                  plans='pairs', max_nodes=5 if q else 6),
+                  plans='pairs', max_nodes=5 if q else 5),
         ] + ([] if q else [Suite('d2', ['corpus', 'oneof', 'plain'], ['outcome'], 2, ['thread'], symptoms=sym, plans='pairs', max_nodes=5, limit=20000)])
     if prop == 'C09':
         sym = LAZY | KW | VALUE | VERDICT | TERM | COUNT | {'wrong-error'}
@@ -122,7 +123,7 @@ def suites(prop: str, tier: str) -> t.List[Suite]:
             Suite('d0-async', ['switch', 'mix', 'corpus'], mons, 0, ['async'], symptoms=sym),
             Suite('composed', ['switchx'], mons, 0, ['async'] if q else ['async', 'thread'], symptoms=sym),
             Suite('d0-thread', ['switch', 'corpus'], mons, 0, ['thread'], symptoms=sym),
-            Suite('d1', ['corpus', 'switch'], mons, 1, ['thread'], symptoms=sym, max_nodes=4 if q else 6),
+            Suite('d1', ['corpus', 'switch'], mons, 1, ['thread'], symptoms=sym, max_nodes=4 if q else 5),
         ]
     if prop == 'C10':
         sym = LAZY | KW | VALUE | VERDICT | TERM | COUNT | {'wrong-error', 'escaped-cancelled'}
@@ -131,7 +132,7 @@ def suites(prop: str, tier: str) -> t.List[Suite]:
             Suite('d0-async', ['oneof', 'mix', 'corpus'], mons, 0, ['async'], symptoms=sym, plans='pairs'),
             Suite('composed', ['oneofx'], mons, 0, ['async'] if q else ['async', 'thread'], symptoms=sym, plans='std' if q else 'pairs'),
             Suite('d0-thread', ['oneof', 'corpus'], mons, 0, ['thread'], symptoms=sym, plans='pairs'),
-            Suite('d1', ['corpus', 'oneof'], mons, 1, ['thread'], symptoms=sym, plans='std' if q else 'pairs', max_nodes=5 if q else 6),
+            Suite('d1', ['corpus', 'oneof'], mons, 1, ['thread'], symptoms=sym, plans='std' if q else 'pairs', max_nodes=5 if q else 5),
         ] + ([] if q else [Suite('d2', ['corpus', 'oneof'], mons, 2, ['thread'], symptoms=sym, max_nodes=5, limit=20000)])
     if prop == 'C11':
         sym = LAZY | KW | VALUE | VERDICT | TERM | COUNT | {'wrong-error'}
@@ -140,7 +141,7 @@ def suites(prop: str, tier: str) -> t.List[Suite]:
             Suite('d0-async', ['rec', 'mix', 'corpus'], mons, 0, ['async'], symptoms=sym),
             Suite('composed', ['recx'], mons, 0, ['async'] if q else ['async', 'thread'], symptoms=sym),
             Suite('d0-thread', ['rec', 'corpus'], mons, 0, ['thread'], symptoms=sym),
-            Suite('d1', ['corpus', 'rec'], mons, 1, ['thread'], symptoms=sym, max_nodes=4 if q else 6),
+            Suite('d1', ['corpus', 'rec'], mons, 1, ['thread'], symptoms=sym, max_nodes=4 if q else 5),
         ] + ([] if q else [Suite('d2', ['corpus', 'rec'], mons, 2, ['thread'], symptoms=sym, max_nodes=4, limit=20000)])
     if prop == 'C13':
         return [
@@ -182,7 +183,7 @@ def suites(prop: str, tier: str) -> t.List[Suite]:
             Suite('once-d0-thread', GEN + ['corpus'], ['saves', 'outcome'], 0, ['thread'], collab={'store': 'once'}, symptoms=sym),
         ] + ([] if q else [Suite('composed', COMPOSED, ['saves', 'outcome'], 0, ['async'], collab={'store': 'once'}, symptoms=sym)]) + [
             Suite('once-gated-save', ['corpus', 'plain', 'switch'], ['saves', 'outcome'], 0, ['async'],
-                  collab={'store': 'once', 'save_mode': 'gated'}, symptoms=sym, plans='ok', max_nodes=5 if q else 6, limit=20000),
+                  collab={'store': 'once', 'save_mode': 'gated'}, symptoms=sym, plans='ok', max_nodes=5 if q else 5, limit=20000),
             Suite('once-d1', ['corpus', 'switch'] + ([] if q else ['plain', 'oneof', 'rec']), ['saves', 'outcome'], 1, ['thread'],
                   collab={'store': 'once'}, symptoms=sym, plans='ok', max_nodes=5),
         ]
@@ -317,6 +318,19 @@ def run(prop: str, tier: str, seed: int) -> dict:
         internal += res['internal']
         if res['sample'] and len(samples) < 4 and (not samples or samples[-1]['suite'] != res['sample']['suite']):
             samples.append(res['sample'])
+    repo_tests = None
+    if prop in ('C01', 'C02', 'C13') and not only:
+        # the repository's own test functions under every schedule (DESIGN 2.6 'repo-tests')
+        from mc import repotests
+        rt = repotests.run_all(0 if tier == 'quick' else 1, limit=5000 if tier == 'quick' else 50000)
+        internal += rt['internal']
+        want = {'C01': {'repo-test-assertion-fails', 'repo-test-raises', 'escaped-cancelled'}, 'C02': {'deadlock', 'livelock'},
+                'C13': {'leftover-tasks'}}[prop]
+        viol += [v for v in rt['viol'] if v['symptom'] in want]
+        repo_tests = dict(tests=rt['tests'], executions=rt['executions'], schedules_capped_tests=rt['capped'])
+        tot['executions'] += rt['executions']
+        tot['transitions'] += rt['transitions']
+        tot['states'] += rt['states']
     viol.sort(key=lambda v: (len(json.dumps(v['case'], default=repr)), v['key'], v['symptom']))
     cov = dict(
         programs=len(progs), cases=tot['cases'], executions=tot['executions'], evaluations=tot['executions'],
@@ -325,7 +339,8 @@ def run(prop: str, tier: str, seed: int) -> dict:
         schedules_cross_validated_on_stock_loop=tot['stock'],
         distinct_outcomes=tot['outcomes'],
         deviation_bound_completed={name: ps['bound'] for name, ps in per_suite.items()},
-        suites=per_suite, caps_hit=tot['capped'], exhaustive=tot['capped'] == 0,
+        suites=per_suite, repo_tests=repo_tests, caps_hit=tot['capped'] + (repo_tests or {}).get('schedules_capped_tests', 0),
+        exhaustive=tot['capped'] == 0 and not (repo_tests or {}).get('schedules_capped_tests', 0),
         samples=samples or [dict(note='no case')],
         rule=('cases = (generated program, plan, configuration); every schedule with at most the stated number of '
               'deviations is executed on the real engine under the controlled loop; states = distinct '
